@@ -23,6 +23,14 @@ DOMAINS = {
 }
 
 
+# option domains by parameter name (any module): the lowest year a two-digit year may stand for; the two-digit
+# issue code appended to an ISSN in an EAN
+BY_NAME = {
+    'minyear': [1900, 1920, 1999, 2000, 2001, 2024],
+    'issue_code': ['00', '01', '13', '99'],
+}
+
+
 def option_sets(modname, func, other=None):
     """List of kwargs dicts with at most one non-default option (deviation bound 1 on options).
     Only options accepted by `func` (and by `other`, when given) are used."""
@@ -44,6 +52,10 @@ def option_sets(modname, func, other=None):
             out.append({p.name: not p.default})
         elif (modname, p.name) in DOMAINS:
             for v in DOMAINS[(modname, p.name)]:
+                if v != p.default:
+                    out.append({p.name: v})
+        elif p.name in BY_NAME:
+            for v in BY_NAME[p.name]:
                 if v != p.default:
                     out.append({p.name: v})
         elif p.name == 'separator':
